@@ -152,7 +152,9 @@ class AsyncProxy(BaseProxy):
             plan = getattr(ctx.behaviour, "plan", None)
             if plan and plan["sid"] == self.sid and plan["req"] == "setup_done" and plan["kind"] == "raise":
                 ctx.record({"k": "FAULT", "s": self.sid, "kind": "raise", "req": "setup_done"})
-                raise RuntimeError(f"injected failure in {self.sid}.setup_done")
+                from .behave import make_exc
+
+                raise make_exc(plan.get("exc"), f"injected failure in {self.sid}.setup_done")
             return None
         if func in ("step", "get_data"):
             loop = asyncio.get_running_loop()
